@@ -98,6 +98,8 @@ pub fn is_constant(opcode: spirv::Op) -> bool {
             | spirv::Op::SpecConstantOp
             | spirv::Op::ConstantCompositeContinuedINTEL
             | spirv::Op::SpecConstantCompositeContinuedINTEL
+            | spirv::Op::ConstantCompositeReplicateEXT
+            | spirv::Op::SpecConstantCompositeReplicateEXT
     )
 }
 
